@@ -41,12 +41,30 @@ var nameUniverse = []string{
 
 var owsPieces = []string{"", "", "", " ", "\t", "  ", " \t", "\t\t\t", "   "}
 
-func runCheck(names, lines []string) bool {
+func runCheck(names, lines []string) (res bool) {
+	defer func() { // a crash is a wrong answer for this input (and C17's business), not the end of the run
+		if e := recover(); e != nil {
+			checkPanics = append(checkPanics, "PANIC "+fmtAny(e)+" in headers.Check for names "+str(BL(names))+" lines "+str(BL(lines)))
+			res = false
+		}
+	}()
 	var set util.SortedSet
 	for _, n := range names {
 		set.Add(n)
 	}
 	return headers.Check(set, lines)
+}
+
+var checkPanics []string
+
+func fmtAny(e any) string {
+	if err, ok := e.(error); ok {
+		return err.Error()
+	}
+	if s, ok := e.(string); ok {
+		return s
+	}
+	return "panic"
 }
 
 func famCheck(o *Out, r R, tier string) {
@@ -56,6 +74,10 @@ func famCheck(o *Out, r R, tier string) {
 	}
 	emit := func(kind string, names, lines []string) {
 		got := runCheck(names, lines)
+		for _, pmsg := range checkPanics {
+			o.emitDirect("check-panic", false, truncate(pmsg))
+		}
+		checkPanics = nil
 		o.emit("check", got || len(lines) > 0 && strings.ContainsAny(strings.Join(lines, ""), "abxz"), kind,
 			KV("names", BL(names)), KV("lines", BL(lines)), KV("impl", Bool(got)), KV("viamw", I(runCheckViaMiddleware(names, lines))))
 	}
@@ -130,6 +152,16 @@ func famCheck(o *Out, r R, tier string) {
 				emit("empties-one-line", names, []string{padded[0] + fill + "," + strings.Join(padded[1:], ",")})
 			}
 		}
+	}
+	// sets holding long names (63..130 bytes) x elements of every length up to beyond the longest (length-indexed
+	// tables and buffers), present and absent
+	for _, longest := range []int{63, 64, 65, 100, 127, 128, 130} {
+		names := []string{"x-a", "x-" + strings.Repeat("b", 30), "x-" + strings.Repeat("c", longest-2)}
+		for l := 1; l <= longest+2; l++ {
+			emit("element-lengths", names, []string{strings.Repeat("q", l)})
+			emit("element-lengths", names, []string{"x-" + strings.Repeat("c", l)})
+		}
+		emit("element-lengths", names, []string{names[0] + "," + names[1] + "," + names[2]})
 	}
 	// name-less lines between lines with names (the position of the last name seen must survive them)
 	for _, gap := range []string{"", ",", " ", "\t,", ",,", " , "} {
